@@ -1,6 +1,7 @@
 import St4sd.Model.Layer
 import St4sd.Model.DslLoad
 import St4sd.Model.ReplVars
+import St4sd.Model.C15Stages
 /-!
 Witnesses for C15.
 
@@ -92,5 +93,18 @@ theorem shared_scope_depends_on_visiting_order :
     resolveShared [("N".toList, "2".toList)] [tune, sweep] = [none, some 3] := by decide
 
 end ReplShared
+
+/-! A stage discovery that chose the flavour through the glob pattern alone (`stage*.conf` also matches
+`stage<N>.instance.conf`; NOT the code) would load the package flavour or the instance flavour of a launched
+directory depending on the order in which the file system lists the two files. -/
+section StagePattern
+open St4sd.C15Stages
+
+theorem pattern_only_depends_on_listing_order :
+    discoverPatternOnly false [⟨0, false, "stage0.conf"⟩, ⟨0, true, "stage0.instance.conf"⟩] 0
+      = some "stage0.instance.conf" ∧
+    discoverPatternOnly false [⟨0, true, "stage0.instance.conf"⟩, ⟨0, false, "stage0.conf"⟩] 0
+      = some "stage0.conf" := by decide
+end StagePattern
 
 end St4sd.C15.Witness
